@@ -237,18 +237,26 @@ func startGen(c *core.Ctx) *genRun {
 	for _, rf := range ga.Recs {
 		for _, m := range allMethods {
 			mf := rf.M[m]
+			opaque := false
 			if t, pos, ok := wire.HasUnknown(mf.Items); ok {
 				unk[m+": "+t] = rf.where(pos)
+				opaque = true
 			}
 			for _, n := range mf.Size {
 				if n.Unknown != "" && n.Unknown != "$return" {
 					unk[m+": "+n.Unknown] = rf.where(n.Pos)
+					opaque = true
 				}
 			}
 			for _, n := range flattenSz(mf.Size) {
 				if n.Unknown != "" && n.Unknown != "$return" {
 					unk[m+": "+n.Unknown] = rf.where(n.Pos)
+					opaque = true
 				}
+			}
+			if opaque {
+				// not understood: nothing is derived from this method
+				mf.Present = false
 			}
 		}
 	}
@@ -505,9 +513,12 @@ func checkC02(c *core.Ctx) {
 	}
 	for _, rf := range gr.ga.Recs {
 		bw, sw, sz := rf.M[mBW], rf.M[mSW], rf.M[mSZ]
-		if !bw.Present || !sw.Present || !sz.Present {
+		if !bw.Emitted || !sw.Emitted || !sz.Emitted {
 			c.Check("R0", "six methods present "+frameKey(rf), anchorPos(gr.p, rf.Spec.Kind, mBW), false, "MarshalBebopTo, EncodeBebop or Size is not emitted — "+rf.where(token.NoPos))
 			continue
+		}
+		if !bw.Present || !sw.Present || !sz.Present {
+			continue // emitted but not understood: UNDECIDED was raised for it
 		}
 		// R1/R4/R5: same bytes from both encoders
 		gr.diffFrames("R4", rf, mBW, mSW, bw.Items, sw.Items)
